@@ -16,9 +16,13 @@ pub struct Error { pub e: u8 }
 pub struct CompilerState { pub x: u8 }
 impl CompilerState {
     pub uninterp spec fn var(&self, name: Seq<char>) -> Variable;
-    // assumed contract of CompilerState::get_variable: a function of the name (A-shim)
+    pub uninterp spec fn declared(&self, name: Seq<char>) -> bool;
+    // CompilerState::get_variable is `variables.get(name).unwrap()`: it panics on a name that is not a variable (an operand built from an identifier nobody looked up,
+    // a literal nobody registered, DUMMY without the feature that declares it)
     #[verifier::external_body]
-    pub fn get_variable(&self, name: &str) -> (r: &Variable) ensures *r == self.var(name@) { unimplemented!() }
+    pub fn get_variable(&self, name: &str) -> (r: &Variable)
+        requires self.declared(name@), //@ C16:asm-operand-variable-looked-up-without-panic
+        ensures *r == self.var(name@) { unimplemented!() }
     #[verifier::external_body]
     pub fn syntax_error(&self, message: &str, loc: usize) -> Error { unimplemented!() }
 }
@@ -91,7 +95,8 @@ pub open spec fn abs_accepted(g: &GeneratorState, m: AsmMnemonic, operand: ExprT
     match operand {
         ExprType::Absolute(n, eb, _) => {
             let v = g.compiler_state.var(n@);
-            !(m_rmw(m) && split_port(g, v)) && !(v.var_type == VariableType::CharPtr && eb && !v.var_const && !high_byte)
+            // the name is a declared variable (otherwise: a located error), and the access is one the memory class allows
+            g.compiler_state.declared(n@) && !(m_rmw(m) && split_port(g, v)) && !(v.var_type == VariableType::CharPtr && eb && !v.var_const && !high_byte)
         }
         _ => true,
     }
@@ -265,6 +270,13 @@ def env(repo):
     return e
 
 
+def candidates(f):
+    """operands whose name is not a variable: a located error, not a panic"""
+    return [{"source": src, "args": ["-O1"], "expect": {"panic": False}, "note": note} for src, note in (
+        ("unsigned char x; void f();\nvoid main() { x = (f >> 8) + 1; }\n", "(f >> 8) + 1 with a function name"), ("void main() { csleep(3); }\n", "csleep(3) where DUMMY is not declared"),
+        ("unsigned char x, a[4]; unsigned char f(char *s) { return s[0]; }\nvoid main() { x = a[f(\"abc\")]; }\n", "a string literal inside a subscript"))]
+
+
 def build(repo):
     u = Unit(NAME, TOOL, PROPS,
              ["src/generate/generate_asm.rs: GeneratorState::asm", "src/generate/generate_asm.rs: GeneratorState::sasm", "src/generate/generate_asm.rs: GeneratorState::sasm_protected",
@@ -322,6 +334,12 @@ def build(repo):
         raise Undecided("asm(): unexpected loop")
     text_asm = asm.text
     parts = [asm.text]
+    # the fallible lookup of generate_statements.rs (a failed lookup is a located error)
+    parts.append("""    #[verifier::external_body]
+    pub(crate) fn variable_or_error(&self, name: &str, pos: usize) -> (r: Result<&'a Variable, Error>)
+        ensures r is Ok ==> *r->Ok_0 == self.compiler_state.var(name@), (r is Ok) == self.compiler_state.declared(name@),
+    { unimplemented!() }
+""")
     for name, hdr, sig in (
         ("sasm", SASM_HEADER, "fn sasm(&mut self, mnemonic: AsmMnemonic) -> Result<bool, Error>"),
         ("sasm_protected", SASM_PROTECTED_HEADER, "fn sasm_protected(&mut self, mnemonic: AsmMnemonic) -> Result<bool, Error>"),
